@@ -1022,6 +1022,18 @@ class C12:
                     where = "pickle restart before op %d" % i
                     finish_other(where)
                     w = ex.world
+                    if (i + restarts) % 2 == 0:
+                        # the string interface of a reference (ref._eval("name"), as used for knob definitions given as
+                        # text) before the restart: looking something up must not make the manager unpicklable
+                        lab0 = spec.roots[0][0]
+                        txt = "1 + 2"
+                        for ch in spec.children.get((lab0,), ()):
+                            if isinstance(ch[-1][1], str) and ch[-1][1].isidentifier() and ch[-1][0] != "a":
+                                txt = ch[-1][1]
+                                break
+                        tr, exc = run_traced(lambda: w.rootref[lab0]._eval(txt))
+                        if exc is None:
+                            ex.count("string_interface_used_before_restart")
                     try:
                         blob = pickle.dumps((w.mgr, w.rootobj, w.ftasks, w.knobs), protocol=pickle.HIGHEST_PROTOCOL)
                         mgr2, roots2, ft2, kn2 = pickle.loads(blob)
